@@ -55,7 +55,10 @@ def cases(ctx):
         lines = [f"*={g.origin():#08x}"]
         for _ in range(rng.randrange(3, 10)):
             r = rng.random()
-            if r < 0.25:
+            if r < 0.08:
+                # *= to a RAM address: the output offset stays where it is (a few bytes only: the run stays in RAM)
+                lines.append(f"*={rng.choice([0x7E0000, 0x7E2000, 0x7F8000, 0x7E1234]):#08x}")
+            elif r < 0.25:
                 lines.append(f"*={g.origin():#08x}")
             elif r < 0.4:
                 lines.append(f"@={rng.choice([0x7E0000, 0x7E1234, 0x7F8000, g.origin()]):#08x}")
@@ -89,6 +92,11 @@ def cases(ctx):
                 src = f"*={org:#08x}\n" + body.replace("{INC}", f".include_ips 'other.ips', {delta}\n").replace("ORG2", f"{org + 0x10000:#08x}")
                 out.append({"kind": "ips-in-run", "rom": rom, "trace": True, "files": {"other.ips": ips(recs)},
                             "spec": {"t": "blocks", "high": rom == "high"}, "src": src})
+    # *= to RAM under each mapping: contiguous output, labels in RAM
+    for rom, org in (("low", 0x018000), ("high", 0x410000), ("high", 0xC00000), ("low2", 0x808000)):
+        for ram in (0x7E0000, 0x7E2000, 0x7FFF00):
+            out.append({"kind": "org-to-ram", "rom": rom, "trace": True, "spec": {"t": "blocks", "high": rom == "high"},
+                        "src": f"*={org:#08x}\n.db 1\n*={ram:#08x}\nvar:\n.db 2, 3\n.dl var\n*={org + 0x100:#08x}\n.db 4\n"})
     # bank crossing with contiguous file offsets
     for rom, org in (("low", 0x00FFFD), ("low", 0x80FFFE), ("low", 0x6EFFFF), ("high", 0x40FFFC), ("high", 0xC1FFFF)):
         out.append({"kind": "bank-cross", "rom": rom, "trace": True, "spec": {"t": "blocks", "high": rom == "high"},
